@@ -47,11 +47,15 @@ def sdv__str(glob_pattern: StringSdv) -> MatcherSdv[str]:
 
 
 def _match_path(model: Path, pattern: str) -> bool:
-    # Path.match raises ValueError for the empty pattern.
-    # The empty pattern matches no path (as the empty pattern for a name, e.g.)
+    # Path.match raises ValueError for the empty pattern,
+    # and for a pattern that is empty after normalization ('.', './').
+    # Such a pattern matches no path (as the empty pattern for a name, e.g.)
     if not pattern:
         return False
-    return model.match(pattern)
+    try:
+        return model.match(pattern)
+    except ValueError:
+        return False
 
 
 def _match_str(model: str, pattern: str) -> bool:
